@@ -127,11 +127,32 @@ def enc_bool(b):
     return "true" if b else "false"
 
 
-def run_outcome(fn):
-    """Run fn() and return its canonical outcome."""
+class ImplementationHangs(BaseException):
+    """The implementation did not return within the time limit (an unbounded loop counts as a failure, not as a hang of the check)."""
+
+
+def _alarm(_sig, _frm):
+    raise ImplementationHangs()
+
+
+def run_outcome(fn, limit=8.0):
+    """Run fn() and return its canonical outcome.  A call that does not return within `limit` seconds is the outcome
+    ('exc', 'ImplementationHangs') (only in the main thread, where the interval timer can interrupt pure Python code)."""
+    import signal
+    import threading
+    timed = threading.current_thread() is threading.main_thread()
+    if timed:
+        old = signal.signal(signal.SIGALRM, _alarm)
+        signal.setitimer(signal.ITIMER_REAL, limit)
     try:
         return ("ok", fn())
     except RecursionError:
         return ("exc", "RecursionError")
+    except ImplementationHangs:
+        return ("exc", "ImplementationHangs")
     except Exception as e:  # noqa: BLE001 - the class name is the observable
         return ("exc", type(e).__name__)
+    finally:
+        if timed:
+            signal.setitimer(signal.ITIMER_REAL, 0)
+            signal.signal(signal.SIGALRM, old)
